@@ -316,6 +316,13 @@ pub fn judge_run(case: &SrvCase, run: &SrvRun) -> Judgement {
                         j.auth.get_or_insert(m.clone());
                     }
                     j.calls.get_or_insert(m);
+                    // the reply (or the silence) was the reference's: the reference goes on with
+                    // the effects it expects, so that what the difference does to LATER replies is
+                    // still judged (a dropped write shows in the next read of that point)
+                    if let Some(o) = first_reply_ok {
+                        model.commit(o);
+                        continue;
+                    }
                 }
                 // the model cannot follow the implementation any further
                 return j;
@@ -413,6 +420,7 @@ fn short_class(c: &ReqClass) -> String {
 
 fn arb_frames(fr: Fr, units: Vec<u8>, hint: WinHint, unit_bias: u8, max: usize) -> BoxedStrategy<Vec<Frame>> {
     let units2 = units.clone();
+    let units3 = units.clone();
     let unit = (0u8..10, any::<prop::sample::Index>(), any::<u8>()).prop_map(move |(sel, idx, raw)| {
         if sel < unit_bias && !units2.is_empty() {
             units2[idx.index(units2.len())]
@@ -428,8 +436,9 @@ fn arb_frames(fr: Fr, units: Vec<u8>, hint: WinHint, unit_bias: u8, max: usize) 
     (
         vec((any::<u16>(), unit, arb_pdu(fr, hint)), 1..=max),
         vec((any::<prop::sample::Index>(), any::<u16>()), 0..3),
+        proptest::option::weighted(0.25, any::<prop::sample::Index>()),
     )
-        .prop_map(|(v, readbacks)| {
+        .prop_map(move |(v, readbacks, bcast)| {
             let mut frames: Vec<Frame> = v
                 .into_iter()
                 .map(|(tx, unit, mut pdu)| {
@@ -438,9 +447,47 @@ fn arb_frames(fr: Fr, units: Vec<u8>, hint: WinHint, unit_bias: u8, max: usize) 
                     Frame { tx, unit, pdu }
                 })
                 .collect();
-            // read back what an earlier write touched (two requests whose handling interferes)
-            for (idx, tx) in readbacks {
+            let readbacks: Vec<(usize, u16)> = readbacks.iter().map(|(idx, tx)| (idx.index(frames.len()), *tx)).collect();
+            // an earlier write once more, addressed to 0 (broadcast on serial links), and read back
+            if let Some(idx) = bcast {
                 let i = idx.index(frames.len());
+                if matches!(frames[i].pdu.first(), Some(5) | Some(6) | Some(15) | Some(16)) && frames[i].pdu.len() >= 5 {
+                    let mut f = frames[i].clone();
+                    let target = f.unit;
+                    f.unit = 0;
+                    f.tx = f.tx.wrapping_add(1);
+                    // other values than the first time, so that the effect is visible
+                    match f.pdu[0] {
+                        5 if f.pdu.len() == 5 => f.pdu[3] ^= 0xFF,
+                        6 if f.pdu.len() == 5 => {
+                            f.pdu[3] ^= 0x5A;
+                            f.pdu[4] ^= 0xA5;
+                        }
+                        _ => {
+                            for b in f.pdu.iter_mut().skip(6) {
+                                *b ^= 0xFF;
+                            }
+                        }
+                    }
+                    frames.push(f);
+                    // read it back from the unit the first write went to
+                    let mut back = frames[i].clone();
+                    back.tx = 0x7B7B;
+                    back.unit = target;
+                    let (rfc, count) = match back.pdu[0] {
+                        5 => (1u8, [0u8, 1u8]),
+                        6 => (3, [0, 1]),
+                        15 => (1, [back.pdu[3], back.pdu[4]]),
+                        _ => (3, [back.pdu[3], back.pdu[4]]),
+                    };
+                    if back.pdu.len() >= 5 {
+                        back.pdu = vec![rfc, back.pdu[1], back.pdu[2], count[0], count[1]];
+                        frames.push(back);
+                    }
+                }
+            }
+            // read back what an earlier write touched (two requests whose handling interferes)
+            for (i, tx) in readbacks {
                 let f = frames[i].clone();
                 if f.pdu.len() >= 5 {
                     let (rfc, count) = match f.pdu[0] {
@@ -451,7 +498,14 @@ fn arb_frames(fr: Fr, units: Vec<u8>, hint: WinHint, unit_bias: u8, max: usize) 
                         _ => continue,
                     };
                     let pdu = vec![rfc, f.pdu[1], f.pdu[2], count[0], count[1]];
-                    frames.push(Frame { tx, unit: f.unit, pdu });
+                    // what a write to address 0 (broadcast on serial links) did is read back
+                    // from a configured unit: a read addressed to 0 is never answered
+                    let unit = if f.unit == 0 && !units3.is_empty() {
+                        units3[(i + tx as usize) % units3.len()]
+                    } else {
+                        f.unit
+                    };
+                    frames.push(Frame { tx, unit, pdu });
                 }
             }
             frames
